@@ -191,6 +191,7 @@ macro_rules! impl_tr {
 impl_tr!(0, "Tr4");
 impl_tr!(1, "Tr8");
 impl_tr!(5, "Tr24");
+impl_tr!(31, "Tr128");
 
 impl Elem for TrZ {
     const NAME: &'static str = "TrZ";
